@@ -107,6 +107,11 @@ def native_confirms(v, harness, profiles=('dev', 'release')):
         elif kind == 'hang':
             if r['hang']:
                 return True, details
+            if r['panic']:
+                # the engine predicts non-termination; natively the run ends in a crash before the time limit (e.g. an endless
+                # loop that starts sessions until thread creation fails): the session is lost either way
+                details[prof]['note'] = 'predicted non-termination ends in a native panic'
+                return True, details
     return False, details
 
 
